@@ -38,7 +38,7 @@ m = {
                  'kind_free_text': 'Lean 4 theorems about a hand-written executable model (Impl) against a frozen transcription of the standards (Spec); constants dumped from the compiled crates and re-proved; three-way differential real code / Impl / Spec through a line protocol'}],
     'checks': checks,
     'not_applicable': na,
-    'notes': 'See DESIGN.md. Every check rebuilds the harness from /repo (hooks on), regenerates Gen/*.lean from the dump, rebuilds the Lean theorems, audits axioms, and runs the correspondence.',
+    'notes': 'See DESIGN.md (section 13 is the as-built state). Every check rebuilds the harness from /repo (hooks on), regenerates Gen/*.lean from the constant dump and — for gm-sm3, gm-zuc, gm-sm4 — the Lean translation of the Rust source (tools/rs2lean.py), rebuilds the Lean theorems, audits axioms, and runs the three-way correspondence. A changed source function (fingerprints.json) or a translation tie that is not established widens the differential to the thorough generator set; neither is an alarm by itself.',
 }
 json.dump(m, open(os.path.join(ROOT, 'MANIFEST.json'), 'w'), indent=1)
 print('MANIFEST.json:', len(checks), 'checks,', len(na), 'unclaimed')
